@@ -3,7 +3,7 @@
    whitening inverses, geometries, shank vectors, neighbourhood sizes, thresholds and requests: no size bound.
    Templates are lists of columns; the threshold fraction is p/q (Model.v). *)
 From Coq Require Import ZArith List Bool Arith Permutation.
-From PV Require Import Base.NpSort C05.Model C05.Spec C05.Proofs C05.Proofs2 C05.Proofs3.
+From PV Require Import Base.NpSort C05.Model C05.Spec C05.Proofs C05.Proofs2 C05.Proofs3 C05.Proofs4.
 Import ListNotations.
 Open Scope Z_scope.
 
@@ -142,6 +142,25 @@ Theorem C05_sorted_checker_sound : forall T r, sorted_b T r = true -> Sorted_rec
 Proof. exact sorted_b_sound. Qed.
 Print Assumptions C05_sorted_checker_sound.
 
+(* the relational judgement of an observed channel list under distance ties: acceptance implies that the list is
+   (some set of the n nearest) /\ (same shank) /\ (reaching the threshold) *)
+Theorem C05_channels_checker_sound : forall P shanks n t T b ids,
+  dense_channels_b P shanks n t T b ids = true -> Dense_channels P shanks n t T b ids.
+Proof. exact dense_channels_b_sound. Qed.
+Print Assumptions C05_channels_checker_sound.
+
+Theorem C05_sparse_channels_checker_sound : forall cols chans r,
+  sparse_channels_b cols chans r = true ->
+  exists sigma, sparse_sigma cols chans r = Some sigma /\ Sparse_channels cols chans sigma r.
+Proof. exact sparse_channels_b_sound. Qed.
+Print Assumptions C05_sparse_channels_checker_sound.
+
+Theorem C05_sparse_aligned_checker_sound : forall W cols chans unw r,
+  sparse_aligned_b W cols chans unw r = true ->
+  exists sigma, sparse_sigma cols chans r = Some sigma /\ Sparse_aligned W cols chans unw sigma r.
+Proof. exact sparse_aligned_b_sound. Qed.
+Print Assumptions C05_sparse_aligned_checker_sound.
+
 (* ---- non-vacuity: the input of the repaired defect (DESIGN.md section 9), evaluated ----------------------------- *)
 Definition ex_ds (cols : option (list (list Z))) : dataset :=
   mkds [ [[0; 5; 0]; [0; 3; 0]; [0; 9; 0]; [0; 7; 0]]; [[0; 0; 1]; [0; 1; 1]; [0; 1; 1]; [0; 1; 1]] ]
@@ -187,3 +206,13 @@ Example C05_ex_sparse_zero :
     (mkds [[[0; 0]; [0; 0]]; [[1; 0]; [0; 2]]] (Some [[0; 1]; [1; 0]]) [[1; 0]; [0; 1]] [mkpos 0 0; mkpos 0 20] [0; 0] 12 (mkthr 0 1))
     (mkreq 0 None None true) = None.
 Proof. vm_compute. reflexivity. Qed.
+(* the checker accepts both admissible neighbourhoods of channel 2 under the distance tie, and rejects a farther one *)
+Example C05_ex_checker_tie :
+  let T := [[0; 3; 0]; [0; 10; 0]; [0; 28; 0]; [0; 9; 0]] in
+  let P := [mkpos 0 0; mkpos 0 20; mkpos 0 40; mkpos 0 60] in
+  dense_channels_b P [0; 1; 1; 1] 2 (mkthr 0 1) T 2 [2; 1]%nat = true /\
+  dense_channels_b P [0; 1; 1; 1] 2 (mkthr 0 1) T 2 [3; 2]%nat = true /\
+  dense_channels_b P [0; 1; 1; 1] 2 (mkthr 0 1) T 2 [2; 1; 3]%nat = false /\
+  dense_channels_b P [0; 1; 1; 1] 2 (mkthr 0 1) T 1 [1]%nat = true /\
+  dense_channels_b P [0; 1; 1; 1] 3 (mkthr 0 1) T 1 [1; 3]%nat = false.
+Proof. vm_compute. repeat split. Qed.
